@@ -268,6 +268,117 @@ def h_circle_grid(nx, ny, i, j, xcase, ycase, m):
               use=['centre farther than', 'pixel left', 'pixel right', 'pixel below', 'pixel above'])
 
 
+def h_ellipse_grid(nx, ny, i, j, xcase, ycase, major, m):
+    xmin, ymin = m.real('xmin'), m.real('ymin')
+    dx, dy = m.pos('dx'), m.pos('dy')
+    rx, ry = m.pos('rx'), m.pos('ry')
+    th = m.angle('theta', 'rad')
+    m.assume(rx >= ry if major == 'rx' else rx < ry)
+    Rmax = rx if major == 'rx' else ry
+    xmax, ymax = xmin + dx * nx, ymin + dy * ny
+    calls = []
+
+    def h_s(I, args, guard):
+        vals = [V(a, m) for a in args]
+        if m.sym:
+            c = SymReal(z3.Real(symx.ctx().name('single')))
+        else:
+            x0, y0, x1, y1, a_, b_, t_ = [float(a) for a in vals]
+            c = _ellipse_rect_area(x0, y0, x1, y1, a_, b_, t_)
+        calls.append((vals, c))
+        return c.t if m.sym else c
+    hk = kernels._trig_hooks()
+    hk['elliptical_overlap_single_exact'] = h_s
+    I = interp(m, 'elliptical_overlap', hk)
+    tv = th.to_value(u.rad)
+    tv = tv[()] if isinstance(tv, np.ndarray) else tv
+    frac = I.call('elliptical_overlap_grid', A(m, [xmin, xmax, ymin, ymax]) + [nx, ny] + A(m, [rx, ry, tv]) + [1, 1])
+    finish(m, I)
+    v = V(frac[j][i], m)
+    X0, Y0 = xmin + dx * i, ymin + dy * j
+    X1, Y1 = X0 + dx, Y0 + dy
+    outside, corners = _pixel_hints(m, X0, Y0, X1, Y1, Rmax, xcase, ycase)
+    mine = [c for (a, c) in calls if all(_same(m, p_, q_) for p_, q_ in zip(a, (X0, Y0, X1, Y1, rx, ry, tv)))]
+    m.require(f'pixel ({i},{j}): the overlap routine is evaluated on the extents of this pixel, the semi-axes and the angle', len(mine) == 1)
+    if len(mine) != 1:
+        return
+    exact = mine[0] / (dx * dy)
+    m.require(f'pixel ({i},{j}) is 0 or overlap area / pixel area', Or(chk.Eq(v, 0), chk.Eq(v, exact)), use=[])
+    m.require(f'pixel ({i},{j}) left at 0 without evaluating the overlap only if it does not meet the disc of the larger semi-axis (which contains the ellipse)',
+              Implies(And(chk.Eq(v, 0), Not(chk.Eq(v, exact))), outside),
+              use=['pixel left', 'pixel right', 'pixel below', 'pixel above'])
+
+
+def _ellipse_rect_area(x0, y0, x1, y1, a, b, t):
+    """numeric reference (replay only): map the ellipse to the unit circle; the rectangle becomes a parallelogram = two triangles"""
+    c, s = math.cos(t), math.sin(t)
+
+    def img(x, y):
+        return ((x * c + y * s) / a, (-x * s + y * c) / b)
+    P = [img(x0, y0), img(x1, y0), img(x1, y1), img(x0, y1)]
+    return (areas.disc_triangle(*P[0], *P[1], *P[2]) + areas.disc_triangle(*P[0], *P[3], *P[2])) * a * b
+
+
+def h_ellipse_in_disc(m):
+    """a point of the ellipse lies within the larger semi-axis of the centre (justifies the skip test of the grid)"""
+    x, y = m.real('x'), m.real('y')
+    rx, ry = m.pos('rx'), m.pos('ry')
+    th = m.angle('theta', 'rad')
+    c, s = symx.angle_cs(th)
+    xt, yt = x * c + y * s, -x * s + y * c
+    inside = xt * xt * ry * ry + yt * yt * rx * rx <= rx * rx * ry * ry
+    Rm = chk.Max(rx, ry)
+    m.lemma('rotation keeps the distance to the centre', chk.Eq(xt * xt + yt * yt, x * x + y * y))
+    m.require('ellipse within the disc of its larger semi-axis', Implies(inside, x * x + y * y <= Rm * Rm))
+
+
+# --------------------------------------------------------------------------
+# L4 ellipse: one pixel
+# --------------------------------------------------------------------------
+def h_ellipse_single(m):
+    import itertools
+    xmin, ymin = m.real('xmin'), m.real('ymin')
+    w, h = m.pos('w'), m.pos('h')
+    rx, ry = m.pos('rx'), m.pos('ry')
+    th = m.angle('theta', 'rad')
+    c, s = symx.angle_cs(th)
+    xmax, ymax = xmin + w, ymin + h
+    calls = []
+
+    def h_t(I, args, guard):
+        vals = [V(a, m) for a in args]
+        cst = SymReal(z3.Real(symx.ctx().name('tri'))) if m.sym else areas.disc_triangle(*[float(a) for a in vals])
+        calls.append((vals, cst))
+        return cst.t if m.sym else cst
+    hk = kernels._trig_hooks()
+    hk['overlap_area_triangle_unit_circle'] = h_t
+    I = interp(m, 'elliptical_overlap', hk)
+    tv = th.to_value(u.rad)
+    tv = tv[()] if isinstance(tv, np.ndarray) else tv
+    v = V(I.call('elliptical_overlap_single_exact', A(m, [xmin, ymin, xmax, ymax, rx, ry, tv])), m)
+    finish(m, I)
+
+    def img(x, y):
+        # the linear map that takes the ellipse (semi-axes rx, ry, rotated by theta) to the unit circle
+        return ((x * c + y * s) / rx, (-x * s + y * c) / ry)
+    Aa, Bb, Cc, Dd = img(xmin, ymin), img(xmax, ymin), img(xmax, ymax), img(xmin, ymax)
+    m.require('the pixel is split in two triangles', len(calls) == 2)
+    if len(calls) != 2:
+        return
+    tris = [[(vals[0], vals[1]), (vals[2], vals[3]), (vals[4], vals[5])] for vals, _ in calls]
+
+    def same_tri(t, ref):
+        return Or(*[And(*[And(chk.Eq(t[k][0], ref[pi[k]][0]), chk.Eq(t[k][1], ref[pi[k]][1])) for k in range(3)])
+                    for pi in itertools.permutations(range(3))])
+
+    def tiling(r1, r2):
+        return Or(And(same_tri(tris[0], r1), same_tri(tris[1], r2)), And(same_tri(tris[0], r2), same_tri(tris[1], r1)))
+    m.require('the two triangles are the images of the two halves of the pixel (either diagonal) under the map ellipse -> unit circle',
+              Or(tiling((Aa, Bb, Cc), (Aa, Dd, Cc)), tiling((Aa, Bb, Dd), (Bb, Cc, Dd))))
+    # areas shrink by |det| = 1 / (rx ry) under the map
+    m.require('overlap = (sum of the two triangle / unit-circle overlaps) * rx * ry', chk.Eq(v, (calls[0][1] + calls[1][1]) * rx * ry))
+
+
 # --------------------------------------------------------------------------
 # L6 the segment formula
 # --------------------------------------------------------------------------
@@ -288,6 +399,8 @@ def h_arc_formula(unit, m):
         v = V(I.call('area_arc', a + A(m, [r])), m)
     finish(m, I)
     chord = csqrt((x2 - x1) * (x2 - x1) + (y2 - y1) * (y2 - y1))
+    # a proper chord (the comparison is term against term, so the range only keeps counter-models away from the degenerate chord 0)
+    m.assume(And(chord * 10 >= r, chord * 10 <= 19 * r))
     if m.sym:
         th = 2 * SymReal(_asin(T(chord / (2 * r))))
         ref = r * r * (th - SymReal(_sin(th.t))) / 2
@@ -314,32 +427,44 @@ def h_plumbing(kind, aunit, m):
     mod = 'regions.shapes.circle' if kind == 'circle' else 'regions.shapes.ellipse'
     m.shim(mod, 'float', symx.sfloat)
     rec = {}
+    SENT = [1 - 5e-6, 5e-9, 0.5, 1.0, 0.0, 0.25 + 1e-7]
+
+    def out(nx, ny):
+        nx, ny = kernels._int(nx), kernels._int(ny)
+        a = np.array([SENT[k % len(SENT)] for k in range(nx * ny)], dtype=float).reshape(ny, nx)
+        rec['out'] = a.copy()
+        return a
 
     def rec_c(xmin, xmax, ymin, ymax, nx, ny, r, use_exact, subpixels):
         rec.update(xmin=xmin, xmax=xmax, ymin=ymin, ymax=ymax, nx=nx, ny=ny, r=r, use_exact=use_exact, subpixels=subpixels)
-        raise _Recorded()
+        return out(nx, ny)
 
     def rec_e(xmin, xmax, ymin, ymax, nx, ny, rx, ry, theta, use_exact, subpixels):
         rec.update(xmin=xmin, xmax=xmax, ymin=ymin, ymax=ymax, nx=nx, ny=ny, rx=rx, ry=ry, theta=theta,
                    use_exact=use_exact, subpixels=subpixels)
-        raise _Recorded()
+        return out(nx, ny)
+    if m.sym:
+        m.shim(mod, 'np', kernels.NPFacade())
     cx, cy = m.real('cx'), m.real('cy')
     if kind == 'circle':
         m.shim(mod, 'circular_overlap_grid', rec_c, both=True)
-        r = m.pos('r')
+        r = m.pos('r', hi=1.2)
         reg = CirclePixelRegion(PixCoord(cx, cy), r)
     else:
         m.shim(mod, 'elliptical_overlap_grid', rec_e, both=True)
-        w, h = m.pos('w'), m.pos('h')
+        w, h = m.pos('w', hi=1.6), m.pos('h', hi=1.6)
         ang = None if aunit == 'default' else m.angle('theta', aunit)
         reg = EllipsePixelRegion(PixCoord(cx, cy), w, h, **({} if ang is None else {'angle': ang}))
     bb = reg.bounding_box
-    try:
-        reg.to_mask(mode='exact')
-        m.require('kernel is called', False)
+    mask = reg.to_mask(mode='exact')
+    m.require('kernel is called', 'out' in rec)
+    if 'out' not in rec:
         return
-    except _Recorded:
-        pass
+    data = np.asarray(mask.data)
+    m.require('the mask is exactly what the kernel returned (no post-processing of the overlap fractions)',
+              data.shape == rec['out'].shape and bool(np.all(data == rec['out'])))
+    m.require('the mask is anchored at the bounding box', And(mask.bbox.ixmin == bb.ixmin, mask.bbox.iymin == bb.iymin,
+                                                              mask.bbox.ixmax == bb.ixmax, mask.bbox.iymax == bb.iymax))
     m.require('grid x-extent = pixel edges of the bounding box, recentred on the shape',
               And(chk.Eq(rec['xmin'], bb.ixmin - 0.5 - cx), chk.Eq(rec['xmax'], bb.ixmax - 0.5 - cx)))
     m.require('grid y-extent = pixel edges of the bounding box, recentred on the shape',
@@ -373,6 +498,15 @@ def harnesses(tier):
                 for xc in CASES3:
                     for yc in CASES3:
                         hs.append((f'circle/grid/{nx}x{ny}/pixel-{i}-{j}/x-{xc}/y-{yc}', P(h_circle_grid, nx, ny, i, j, xc, yc)))
+    for nx, ny in ((1, 1), (2, 2)) if tier == 'quick' else ((1, 1), (2, 1), (2, 2), (3, 3)):
+        for i in range(nx):
+            for j in range(ny):
+                for xc in CASES3:
+                    for yc in CASES3:
+                        for mj in ('rx', 'ry'):
+                            hs.append((f'ellipse/grid/{nx}x{ny}/pixel-{i}-{j}/x-{xc}/y-{yc}/major-{mj}', P(h_ellipse_grid, nx, ny, i, j, xc, yc, mj)))
+    hs.append(('ellipse/within-major-axis-disc', h_ellipse_in_disc))
+    hs.append(('ellipse/single-pixel', h_ellipse_single))
     hs.append(('segment-formula/radius-r', P(h_arc_formula, False)))
     hs.append(('segment-formula/unit', P(h_arc_formula, True)))
     hs.append(('plumbing/circle', P(h_plumbing, 'circle', None)))
